@@ -83,7 +83,7 @@ TRank == /\ Live /\ pcx = "top" /\ steps < Rec.maxit
                  /\ why' = IF Pass.E # Sq(E, N) THEN "a stored value is not the value logged for its vertex (NoStaleErrors)"
                            ELSE IF Pass.P # Sq(P, N) THEN "a vertex differs from what the accepted evaluations imply"
                            ELSE IF HiLo(E, N) # <<Pass.hi, Pass.lo>> THEN "highest / lowest differ from the scan of lines 115-121"
-                           ELSE IF SecondHighest(E, N, Pass.hi, Pass.lo) # Pass.sh THEN "secondhighest differs from the scan of lines 125-132"
+                           ELSE IF Pass.sh \notin 0..N \/ E[SecondHighest(E, N, Pass.hi, Pass.lo)] # E[Pass.sh] THEN "errors[secondhighest] differs from the scan of lines 125-132"
                            ELSE IF ~RankLaw(E, N, Pass.hi, Pass.lo, Pass.sh) THEN "RankLaw"
                            ELSE IF MinOf(E, N) > minprev THEN "the best stored value increased (BestNeverIncreases)"
                            ELSE "ok"
